@@ -228,6 +228,10 @@ class Impl:
                 return ("ok", u.get_name(op[2], op[1]))
             if api == "symbol":
                 return ("ok", u.get_symbol(op[2], op[1]))
+            if api == "defsym":       # the symbol stored with the definition the string resolves to
+                return ("ok", u._get_symbol(u.get_name(op[2], op[1])))
+            if api == "short":        # the same, through the public short format of the unit
+                return ("ok", format(u.Unit(op[1]), "~"))
             if api == "units":
                 r = u.parse_units(op[1], as_delta=op[2], case_sensitive=op[3])
                 return ("ok", tuple(sorted((k, F(v)) for k, v in r._units.items())))
@@ -298,6 +302,8 @@ def coq_op(op, o):
         return f"OName {coq_ob(op[1])} {cstr(op[2])} {coq_ures(o, cstr)}"
     if api == "symbol":
         return f"OSymbol {coq_ob(op[1])} {cstr(op[2])} {coq_ures(o, cstr)}"
+    if api == "defsym":
+        return f"ODefSym {coq_ob(op[1])} {cstr(op[2])} {coq_ures(o, cstr)}"
     if api == "all":
         return f"OAll {cstr(op[2])} {coq_pairs(o[0][1])} {coq_ures(o[1], cstr)} {coq_ures(o[2], cstr)}"
     toks = c_toks(lex_ok(op[1]) or [])
@@ -390,7 +396,7 @@ def history_kind(T, impl, strings):
 
 
 def op_strings(op):
-    if op[0] in ("parse", "name", "symbol", "all"):
+    if op[0] in ("parse", "name", "symbol", "all", "defsym"):
         return [op[2]]
     return [t for k, t in (lex_ok(op[1]) or []) if k == "name"] or [op[1]]
 
@@ -456,6 +462,27 @@ def oracle_string(T, fails, s, o_parse, o_name, o_sym, tag=""):
             fails.add(f"symbol:{s}", f"get_symbol({s!r}) gives {o_sym}, expected {want}", rp)
     elif o_sym != ("err", "KUndefined"):
         fails.add(f"symbol-undefined:{s}", f"get_symbol({s!r}) gives {o_sym} for a string with no reading", rp)
+
+
+def oracle_stored_symbol(T, fails, impl, s, o_name, check_format=False):
+    """the symbol stored with the definition `s` resolves to (what the short '~' formats print) is that of
+    the definition: prefix symbol + unit symbol, a unit defined without a symbol contributing its name"""
+    o = impl.call(("defsym", None, s))
+    impl.reset()
+    w = T.winner(s)
+    if w[0] == "ok" and w[1] in T.units:        # prefix + unit composes the name of a unit the files define
+        w = (w[0], w[1], T.units[w[1]].symbol)
+    if w[0] == "ok" and w[1] and o_name == ("ok", w[1]):
+        if o != ("ok", w[2]):
+            fails.add(f"stored-symbol:{s}", f"after get_name({s!r}) = {w[1]!r} the definition's stored symbol (_get_symbol, "
+                      f"short format) is {o}, prefix symbol + unit symbol is {w[2]!r}", {"string": s, "canonical": w[1], "got": o, "want": w[2]})
+        elif check_format and IDENT.fullmatch(s) and lex_ok(s) is not None and w[2].isascii() and w[2].isalnum():
+            of = impl.call(("short", s))
+            impl.reset()
+            if of != ("ok", w[2]):
+                fails.add(f"stored-symbol-format:{s}", f"format(ureg.Unit({s!r}), '~') gives {of}, the definition's symbol is {w[2]!r}",
+                          {"string": s, "got": of, "want": w[2]})
+    return o
 
 
 def attr_refused(s):
@@ -576,7 +603,7 @@ def run(ck):
         strings = strings[:10000] + ambiguous + strings[10000:]
     n_model = len(strings) if thorough else 10000 + len(ambiguous)
     strings += sp_all + [u + "s" for u in sp_all]          # the exact spellings and their plurals
-    seen, multi, obs3 = set(), [], {}
+    seen, multi, obs3, obs_def = set(), [], {}, {}
     for s in strings:
         if s in seen:
             continue
@@ -586,12 +613,13 @@ def run(ck):
         oracle_string(T, fails, s, *o)
         if len(o[0][1]) >= 2:
             multi.append(s)
+        obs_def[s] = oracle_stored_symbol(T, fails, fresh, s, o[1], check_format=thorough or len(obs_def) % 12 == 0)
     ck.count("oracle:cross-product strings (fresh)", len(seen))
     ck.extra["cross_product_size"] = cross_n
     ck.extra["strings_with_2+_candidates"] = len(multi)
     model_strings = list(dict.fromkeys(strings[:n_model] + multi + sp_all))
-    ops = [x for s in model_strings for x in fresh_ops(s, obs3[s])]
-    add_fresh_cases(CFG, ops, "fresh", per=12)
+    ops = [x for s in model_strings for x in fresh_ops(s, obs3[s]) + [(("defsym", None, s), obs_def[s])]]
+    add_fresh_cases(CFG, ops, "fresh", per=24)
     for s in model_strings:
         ck.case(key=("fresh", s), nontrivial=True, n=3,
                 sample={"string": s, "parse_unit_name": obs3[s][0][1], "get_name": obs3[s][1]} if len(ck.samples) < 2 and len(obs3[s][0][1]) > 1 else None)
@@ -705,7 +733,7 @@ def run(ck):
             continue
         o = fresh3(s)
         oracle_string(T, fails, s, *o)
-        jops += fresh_ops(s, o)
+        jops += fresh_ops(s, o) + [(("defsym", None, s), oracle_stored_symbol(T, fails, fresh, s, o[1]))]
         if s == "" or (IDENT.fullmatch(s) and lex_ok(s) is not None):
             lazy_read = T.candidates(s, lazy=True) != T.candidates(s)
             w = T.winner(s)
@@ -856,7 +884,7 @@ def run(ck):
                 p2, un = rng.choice(pnames), rng.choice(unames)
                 s = rng.choice(T.p_spellings[p2]) + rng.choice(T.u_spellings[un])
                 pending.append(rng.choice(pk_all) + p2 + un + rng.choice(["", "", "s"]))
-            api = rng.choice(["name", "name", "name", "parse", "symbol", "units", "getattr", "in", "compound"])
+            api = rng.choice(["name", "name", "name", "parse", "symbol", "defsym", "units", "getattr", "in", "compound"])
             if isinstance(s, tuple):
                 api, s = s
             if s.lower().strip("_") == "nan":
@@ -874,6 +902,8 @@ def run(ck):
                 op = ("name", rng.choice([None, None, None, True]), s)
             elif api == "symbol":
                 op = ("symbol", None, s)
+            elif api == "defsym":
+                op = ("defsym", None, s)
             elif api == "units":
                 op = ("units", s, rng.choice([None, True, False]), None)
             else:
